@@ -153,6 +153,49 @@ def h_build(L, ty, n, with_ns, via='ctor'):
     return 'built'
 
 
+def h_build_ns(L, ty, hole):
+    """a free namespace through the typed and the type-agnostic builder: same namespace; maven refused exactly when no namespace is present"""
+    I = L.I
+    ns = L.sym_bytes('h', hole[2])
+    if len(hole) > 3:
+        L.restrict(ns, hole[3])
+    L.assume_utf8(ns)
+    steps = [('with_namespace', ns)]
+    reqs = [{'op': 'build_typed', 'T': 'Purl', 'type': SymStr(list(ty.encode())), 'name': SymStr(list(b'n')), 'steps': [['with_namespace', SymStr(ns)]]},
+            {'op': 'build', 'T': 'String', 'type': SymStr(list(ty.encode())), 'name': SymStr(list(b'n')), 'steps': [['with_namespace', SymStr(ns)]]}]
+    req = {'op': 'multi', 'reqs': reqs}
+    L.expect_native(req, {})
+    outs = []
+    try:
+        for T in ('Purl', 'String'):
+            b = b_new(I, T, mk_type(I, T, list(ty.encode())), list(b'n'))
+            b = b_call(I, T, b, 'with_namespace', ns)
+            r = b_build(I, T, b)
+            outs.append(r)
+    except Panic as e:
+        L.fail('panic: %s' % e.msg)
+        return 'panic'
+    rP, rS = outs
+    if rS.variant == 'Err':
+        L.fail('the type-agnostic builder refuses a namespace')
+        return 'rejected'
+    present = any(not beq(I, x, 0x2F) for x in ns)          # a namespace with at least one non-empty segment
+    only_slashes = len(ns) > 0 and not present                 # unspecified for maven (a namespace made of separators only)
+    if rP.variant == 'Err':
+        L.expect_native(req, {'res': [{'err': err_name(rP.fields[0])}, {}]})
+        if ty == 'maven' and not present:
+            return 'maven-no-namespace'
+        L.fail('typed builder refuses (%s) a %s PURL whose namespace is present' % (err_name(rP.fields[0]), ty))
+        return 'rejected'
+    if ty == 'maven' and len(ns) == 0:
+        L.fail('maven PURL without namespace built')
+        return 'built'
+    aP, aS = accessors(I, 'Purl', rP.fields[0]), accessors(I, 'String', rS.fields[0])
+    L.expect_native(req, {'res': [{'ok': obs_expect(aP)}, {'ok': obs_expect(aS)}]})
+    same(L, 'namespace', aP['ns'], aS['ns'])
+    return 'built'
+
+
 def queries(tier):
     th = tier == 'thorough'
     qs = []
@@ -179,6 +222,11 @@ def queries(tier):
     for n in lens(5 if th else 4, 1):
         addp(['pkg:', ('hole', 'h', n), '/ns/n'])
     addp(['pkg:', ('hole', 'h', 3), '/ns/n@1?k=v#s'])
+    # free namespaces through both builders (values the parser cannot produce included)
+    for ty in NAMES:
+        for hole in [('hole', 'h', n) for n in lens(3 if th else 2)] + [('hole', 'h', n, b'/a') for n in ((4, 5, 6) if th else (4, 5))]:
+            qs.append(Query('build %s namespace=%s typed|String' % (ty, hole_text(hole)), h_build_ns, {'ty': ty, 'hole': hole},
+                            bound='Purl::builder(%s, "n").with_namespace(%s) next to the type-agnostic builder' % (ty, hole_text(hole))))
     # type strings next to every known name: one / two free bytes appended, prepended, inserted or substituted
     for ty in NAMES:
         for nm in (ty, ty.upper()) if th else (ty,):
@@ -200,6 +248,25 @@ def confirm(v, resp):
     if 'panic' in resp:
         return 'panicked: %s' % resp['panic']
     req = v['case']
+    if req['op'] == 'multi':
+        rP, rS = resp['res']
+        r0 = req['reqs'][0]
+        ty = bytes.fromhex(r0['type']).decode()
+        ns = bytes.fromhex(r0['steps'][0][1])
+        if 'panic' in rP or 'panic' in rS:
+            return 'panicked'
+        if 'ok' not in rS:
+            return 'the type-agnostic builder refuses the namespace %r' % ns
+        present = ns.strip(b'/') != b''
+        if 'ok' not in rP:
+            if ty == 'maven' and not present:
+                return None
+            return 'the typed builder refuses (%s) a %s PURL with the namespace %r' % (rP.get('err'), ty, ns)
+        if ty == 'maven' and ns == b'':
+            return 'maven PURL without namespace built'
+        if rP['ok']['ns'] != rS['ok']['ns']:
+            return 'namespace %r is reported as %r by the typed and %r by the type-agnostic PURL' % (ns, rP['ok']['ns'] and hx(rP['ok']['ns']), rS['ok']['ns'] and hx(rS['ok']['ns']))
+        return None
     if req['op'] == 'build_typed':
         ty = bytes.fromhex(req['type']).decode()
         name = bytes.fromhex(req['name'])
